@@ -109,6 +109,24 @@ def gen(rng, idx, tier):
         for g in glyphs:
             if rng.random() < 0.5 and g["name"] != ".notdef":
                 g["anchors"] = [{"name": rng.choice(["top", "bottom", "_top"]), "x": 100, "y": 300}]
+        simple = [g for g in glyphs if g["contours"] and not g["components"]
+                  and g["name"] != ".notdef"]
+        if len(simple) >= 2 and rng.random() < 0.4:
+            # anchor names that collide during propagation: 'top' of two components becomes
+            # top_1 / top_2 while a third component (itself a propagated composite) already
+            # carries top_1 / top_2
+            b1, b2 = simple[0], simple[1]
+            for b, xy in ((b1, (120, 310)), (b2, (80, 280))):
+                b["anchors"] = [{"name": "top", "x": xy[0], "y": xy[1]}]
+            glyphs.append({"name": "lig.one", "width": 700, "unicodes": [], "contours": [],
+                           "anchors": [], "components": [
+                               {"base": b1["name"], "t": [1, 0, 0, 1, 0, 0]},
+                               {"base": b2["name"], "t": [1, 0, 0, 1, 350, 0]}]})
+            glyphs.append({"name": "lig.two", "width": 900, "unicodes": [], "contours": [],
+                           "anchors": [], "components": [
+                               {"base": "lig.one", "t": [1, 0, 0, 1, 17, 40]},
+                               {"base": b2["name"], "t": [1, 0, 0, 1, 500, -30]},
+                               {"base": b1["name"], "t": [1, 0, 0, 1, 700, 25]}]})
         lib = {"com.github.googlei18n.ufo2ft.filters": [
             {"name": "propagateAnchors", "pre": True}, {"name": "sortContours"}]}
         ufo = {"glyphs": glyphs, "kerning": [], "groups": {}, "features": "", "lib": lib,
